@@ -214,28 +214,7 @@ Proof.
   apply FOLD; auto. apply lkonly_mod.
 Qed.
 
-(* ---------- lock_parents ---------- *)
-Definition pfold (F : nat) (n : nat) (ms : list nat) (start : option graph) : option graph :=
-  fold_left (fun acc m => match acc with
-                          | Some a => match g_get a m with
-                                      | Some y => if mem n (n_children y) then Some a else lock_rec F a m
-                                      | None => None
-                                      end
-                          | None => None
-                          end) ms start.
-
-Lemma lock_parents_eq : forall g n ms, lock_parents g n ms = pfold (length g) n ms (Some g).
-Proof. reflexivity. Qed.
-
-Lemma pfold_none : forall F n ms, pfold F n ms None = None.
-Proof. unfold pfold. induction ms; cbn; auto. Qed.
-
-Lemma pfold_cons : forall F n m ms a,
-  pfold F n (m :: ms) (Some a) = pfold F n ms (match g_get a m with
-                                               | Some y => if mem n (n_children y) then Some a else lock_rec F a m
-                                               | None => None end).
-Proof. reflexivity. Qed.
-
+(* ---------- _lock_parents ---------- *)
 Lemma lkonly_children : forall g g' k x y, lkonly g g' -> g_get g k = Some x -> g_get g' k = Some y ->
   n_children y = n_children x /\ n_mixins y = n_mixins x /\ n_compiled y = n_compiled x /\ n_snap y = n_snap x /\
   n_linkback y = n_linkback x /\ n_own y = n_own x /\ (n_locked x = true -> n_locked y = true).
@@ -244,47 +223,162 @@ Proof.
   destruct R as [->| ->]; cbn; repeat split; auto.
 Qed.
 
-Lemma pfold_spec : forall F n ms a gb, pfold F n ms (Some a) = Some gb ->
-  lkonly a gb /\ (forall E, LC E a -> LC E gb) /\
-  (forall m y, In m ms -> g_get a m = Some y -> mem n (n_children y) = false -> locked_at gb m).
+Lemma Lb_sk : forall g g', same sk g g' -> forall a n, Lb g a n -> Lb g' a n.
 Proof.
-  intros F n. induction ms as [|m ms IH]; intros a gb H.
-  - cbn in H. injection H as <-. split; [apply lkonly_refl|]. split; auto. intros m y [].
-  - rewrite pfold_cons in H. destruct (g_get a m) as [y|] eqn:Em; [|rewrite pfold_none in H; discriminate].
-    destruct (mem n (n_children y)) eqn:C.
-    + destruct (IH _ _ H) as (K & CL & Q). split; auto. split; auto.
-      intros m' y' [<-|I] Ey' Cy'; [congruence | eauto].
-    + destruct (lock_rec F a m) as [a1|] eqn:R; [|rewrite pfold_none in H; discriminate].
-      destruct (lock_rec_spec _ _ _ _ R) as (K1 & Q1 & C1). destruct (IH _ _ H) as (K2 & C2 & Q2).
-      split; [eapply lkonly_trans; eauto|]. split; [intros E HE; apply C2; apply C1; auto|].
-      intros m' y' [<-|I] Ey' Cy'.
-      * eapply locked_at_mono; eauto.
-      * destruct K1 as [_ K1]. destruct (K1 _ _ Ey') as [z [Ez Rz]].
-        eapply (Q2 m' z); auto. destruct Rz as [->| ->]; auto.
+  intros g g' S a n H. induction H; [constructor|].
+  pose proof (S a) as Sa. rewrite H in Sa. cbn in Sa. destruct (g_get g' a) as [y|] eqn:Ey; [|discriminate].
+  cbn in Sa. unfold sk in Sa. injection Sa as _ Pc. eapply lb_step; eauto. rewrite <- Pc. auto.
 Qed.
 
-Lemma pfold_some : forall F n ms g a, lkonly g a -> (forall m, In m ms -> mterm F g m = true) ->
-  exists gb, pfold F n ms (Some a) = Some gb.
+(* children list exactly the linkback derivations (part of the invariant of reachable graphs) *)
+Definition ChildMix (g : graph) : Prop :=
+  forall p x c, g_get g p = Some x -> In c (n_children x) ->
+    exists y, g_get g c = Some y /\ In p (n_mixins y) /\ n_linkback y = true.
+
+Lemma ChildMix_gkeep : forall g g', gkeep g g' -> ChildMix g -> ChildMix g'.
 Proof.
-  intros F n. induction ms as [|m ms IH]; intros g a K T.
-  - cbn. eauto.
-  - rewrite pfold_cons.
-    assert (mterm F a m = true) as Ta.
-    { rewrite <- (mterm_same g a); [apply T; left; auto|]. apply gkeep_same_sk. apply lkonly_gkeep. auto. }
-    pose proof (mterm_lt _ _ _ Ta) as Lm. destruct (g_get_some _ _ Lm) as [y Ey]. rewrite Ey.
-    destruct (mem n (n_children y)).
-    + eapply IH; eauto. intros. apply T. right. auto.
-    + destruct (lock_rec_some _ _ _ Ta) as [a1 R]. rewrite R. eapply (IH g); [|intros; apply T; right; auto].
-      eapply lkonly_trans; [exact K|]. apply (lock_rec_spec _ _ _ _ R).
+  intros g g' K H p x' c Ep Ic.
+  assert (forall k z', g_get g' k = Some z' -> exists z, g_get g k = Some z /\ keep z z') as Back.
+  { intros k z' Ez'. destruct K as [L K]. assert (k < length g) as Lk by (rewrite L; eapply g_get_lt; eauto).
+    destruct (g_get_some _ _ Lk) as [z Ez]. destruct (K _ _ Ez) as [z'' [Ez'' Kz]]. rewrite Ez' in Ez''. injection Ez'' as <-. eauto. }
+  destruct (Back _ _ Ep) as [x [Ex Kx]]. destruct Kx as (_ & _ & Kc & _). rewrite <- Kc in Ic.
+  destruct (H _ _ _ Ex Ic) as (y & Ey & Im & Ly). destruct (proj2 K _ _ Ey) as [y' [Ey' Ky]].
+  exists y'. destruct Ky as (_ & Km & _ & Kl & _). rewrite <- Km, <- Kl. auto.
+Qed.
+
+Lemma Lb_last : forall g v n, Lb g v n ->
+  v = n \/ exists m xm, g_get g m = Some xm /\ In n (n_children xm) /\ Lb g v m.
+Proof.
+  intros g v n H. induction H as [a | a x c n Ea Ic H IH].
+  - left. reflexivity.
+  - right. destruct IH as [->|(m & xm & Em & In' & L)].
+    + exists a, x. repeat split; auto. constructor.
+    + exists m, xm. repeat split; auto. eapply lb_step; eauto.
+Qed.
+
+Definition pfold (f F : nat) (n : nat) (ms : list nat) (start : option graph) : option graph :=
+  fold_left (fun acc m => match acc with
+                          | Some a => match g_get a m with
+                                      | Some y => if mem n (n_children y) then lock_parents f a m else lock_rec F a m
+                                      | None => None
+                                      end
+                          | None => None
+                          end) ms start.
+
+Lemma lock_parents_S : forall f g n,
+  lock_parents (S f) g n = match g_get g n with
+                           | None => None
+                           | Some x => pfold f (length g) n (n_mixins x) (Some g)
+                           end.
+Proof. reflexivity. Qed.
+
+Lemma pfold_none : forall f F n ms, pfold f F n ms None = None.
+Proof. unfold pfold. induction ms; cbn; auto. Qed.
+
+Lemma pfold_cons : forall f F n m ms a,
+  pfold f F n (m :: ms) (Some a) = pfold f F n ms (match g_get a m with
+                                                   | Some y => if mem n (n_children y) then lock_parents f a m else lock_rec F a m
+                                                   | None => None end).
+Proof. reflexivity. Qed.
+
+Lemma lock_parents_spec : forall f g n g', lock_parents f g n = Some g' ->
+  lkonly g g' /\ forall E, LC E g -> LC E g'.
+Proof.
+  induction f; intros g n g' H; [discriminate|].
+  rewrite lock_parents_S in H. destruct (g_get g n) as [x|] eqn:En; [|discriminate].
+  assert (forall ms a gb, pfold f (length g) n ms (Some a) = Some gb -> lkonly a gb /\ forall E, LC E a -> LC E gb) as FOLD.
+  { induction ms as [|m ms IHms]; intros a gb Hf.
+    - cbn in Hf. injection Hf as <-. split; [apply lkonly_refl | auto].
+    - rewrite pfold_cons in Hf. destruct (g_get a m) as [y|] eqn:Em; [|rewrite pfold_none in Hf; discriminate].
+      destruct (mem n (n_children y)).
+      + destruct (lock_parents f a m) as [a1|] eqn:R; [|rewrite pfold_none in Hf; discriminate].
+        destruct (IHf _ _ _ R) as (K1 & C1). destruct (IHms _ _ Hf) as (K2 & C2).
+        split; [eapply lkonly_trans; eauto | intros E HE; apply C2; apply C1; auto].
+      + destruct (lock_rec (length g) a m) as [a1|] eqn:R; [|rewrite pfold_none in Hf; discriminate].
+        destruct (lock_rec_spec _ _ _ _ R) as (K1 & _ & C1). destruct (IHms _ _ Hf) as (K2 & C2).
+        split; [eapply lkonly_trans; eauto | intros E HE; apply C2; apply C1; auto]. }
+  apply FOLD in H. exact H.
+Qed.
+
+(* what gets locked: for every node v from which n derives through linkback derivations only (n itself included) and
+   that is not itself a linkback derivation, all the mixins of v *)
+Lemma lock_parents_locks : forall f g n g', ChildMix g -> lock_parents f g n = Some g' ->
+  forall v y q, Lb g v n -> g_get g v = Some y -> n_linkback y = false -> In q (n_mixins y) -> locked_at g' q.
+Proof.
+  induction f; intros g n g' CM H; [discriminate|].
+  rewrite lock_parents_S in H. destruct (g_get g n) as [x|] eqn:En; [|discriminate].
+  assert (forall ms a gb, lkonly g a -> pfold f (length g) n ms (Some a) = Some gb ->
+            lkonly a gb /\
+            forall m, In m ms -> exists ym, g_get g m = Some ym /\
+              (mem n (n_children ym) = false -> locked_at gb m) /\
+              (mem n (n_children ym) = true -> forall v y q, Lb g v m -> g_get g v = Some y -> n_linkback y = false ->
+                                               In q (n_mixins y) -> locked_at gb q)) as FOLD.
+  { induction ms as [|m ms IHms]; intros a gb Ka Hf.
+    - cbn in Hf. injection Hf as <-. split; [apply lkonly_refl|]. intros m [].
+    - rewrite pfold_cons in Hf. destruct (g_get a m) as [y|] eqn:Em; [|rewrite pfold_none in Hf; discriminate].
+      destruct (lkonly_back _ _ _ _ Ka Em) as [y0 [Ey0 R0]].
+      assert (n_children y = n_children y0) as Cy by (destruct R0 as [->| ->]; reflexivity).
+      rewrite Cy in Hf.
+      destruct (mem n (n_children y0)) eqn:Mn.
+      + destruct (lock_parents f a m) as [a1|] eqn:R; [|rewrite pfold_none in Hf; discriminate].
+        destruct (lock_parents_spec _ _ _ _ R) as (K1 & _).
+        destruct (IHms _ _ (lkonly_trans _ _ _ Ka K1) Hf) as (K2 & Q2).
+        split; [eapply lkonly_trans; eauto|].
+        intros m' [<-|I]; [|apply Q2; auto].
+        exists y0. split; auto. split; [congruence|]. intros _ v yv q Lv Ev Lyv Iq.
+        eapply locked_at_mono; [exact K2|].
+        assert (gkeep g a) as Kg by (apply lkonly_gkeep; auto).
+        destruct (proj2 Kg _ _ Ev) as [yv' [Evy' Kv]]. destruct Kv as (_ & Kvm & _ & Kvl & _).
+        eapply (IHf a m a1 (ChildMix_gkeep _ _ Kg CM) R v yv' q); eauto; try congruence.
+        eapply Lb_sk; [apply gkeep_same_sk; exact Kg | exact Lv].
+      + destruct (lock_rec (length g) a m) as [a1|] eqn:R; [|rewrite pfold_none in Hf; discriminate].
+        destruct (lock_rec_spec _ _ _ _ R) as (K1 & Q1 & _).
+        destruct (IHms _ _ (lkonly_trans _ _ _ Ka K1) Hf) as (K2 & Q2).
+        split; [eapply lkonly_trans; eauto|].
+        intros m' [<-|I]; [|apply Q2; auto].
+        exists y0. split; auto. split; [|congruence]. intros _. eapply locked_at_mono; eauto. }
+  destruct (FOLD _ _ _ (lkonly_refl g) H) as (K & Q).
+  intros v y q Lv Ev Lyv Iq. destruct (Lb_last _ _ _ Lv) as [->|(m & xm & Em & In' & Lm)].
+  - rewrite En in Ev. injection Ev as <-.
+    destruct (Q q Iq) as (yq & Eyq & Q1 & _). apply Q1.
+    destruct (mem n (n_children yq)) eqn:M; auto. unfold mem in M. apply existsb_exists in M.
+    destruct M as [n' [In'' En']]. apply Nat.eqb_eq in En'. subst n'.
+    destruct (CM _ _ _ Eyq In'') as (yn & Eyn & _ & Ln). rewrite En in Eyn. injection Eyn as <-. congruence.
+  - destruct (CM _ _ _ Em In') as (yn & Eyn & Imn & _). rewrite En in Eyn. injection Eyn as <-.
+    destruct (Q m Imn) as (xm' & Em' & _ & Q2). rewrite Em in Em'. injection Em' as <-.
+    eapply Q2; eauto. unfold mem. apply existsb_exists. exists n. split; auto. apply Nat.eqb_refl.
+Qed.
+
+Lemma lock_parents_some : forall f g n,
+  (forall k, k < length g -> mterm (length g) g k = true) -> mterm f g n = true -> exists g', lock_parents f g n = Some g'.
+Proof.
+  induction f; intros g n M T; [discriminate|].
+  rewrite mterm_S in T. rewrite lock_parents_S. destruct (g_get g n) as [x|] eqn:En; [|discriminate].
+  assert (forall ms a, lkonly g a -> forallb (mterm f g) ms = true -> exists gb, pfold f (length g) n ms (Some a) = Some gb) as FOLD.
+  { induction ms as [|m ms IHms]; intros a K Tm.
+    - cbn. eauto.
+    - cbn in Tm. apply andb_true_iff in Tm. destruct Tm as [T1 T2]. rewrite pfold_cons.
+      assert (same sk g a) as Ssk by (apply gkeep_same_sk; apply lkonly_gkeep; auto).
+      assert (length a = length g) as La by (destruct K; auto).
+      pose proof (mterm_lt _ _ _ T1) as Lm. rewrite <- La in Lm. destruct (g_get_some _ _ Lm) as [y Ey]. rewrite Ey.
+      destruct (mem n (n_children y)).
+      + destruct (IHf a m) as [a1 R].
+        * intros k Lk. rewrite La in *. rewrite <- (mterm_same g a); auto.
+        * rewrite <- (mterm_same g a); auto.
+        * rewrite R. apply IHms; auto. eapply lkonly_trans; [exact K|]. apply (lock_parents_spec _ _ _ _ R).
+      + destruct (lock_rec_some (length g) a m) as [a1 R].
+        * rewrite <- (mterm_same g a); auto. apply M. lia.
+        * rewrite R. apply IHms; auto. eapply lkonly_trans; [exact K|]. apply (lock_rec_spec _ _ _ _ R). }
+  apply FOLD; auto. apply lkonly_refl.
 Qed.
 
 (* ---------- compile ---------- *)
 Lemma compile_inv : forall g n g', compile g n = Some g' ->
-  exists x g1 t, g_get g n = Some x /\ lock_parents g n (n_mixins x) = Some g1 /\ defns (length g) g n = Some t /\
+  exists x g1 t, g_get g n = Some x /\ lock_parents (length g) g n = Some g1 /\ defns (length g) g n = Some t /\
                  g' = g_mod g1 n (set_snap t).
 Proof.
   unfold compile. intros g n g' H. destruct (g_get g n) as [x|] eqn:E; [|discriminate].
-  destruct (lock_parents g n (n_mixins x)) as [g1|] eqn:P; [|discriminate].
+  destruct (lock_parents (length g) g n) as [g1|] eqn:P; [|discriminate].
   destruct (defns (length g) g n) as [t|] eqn:D; [|discriminate]. injection H as <-. eauto 8.
 Qed.
 
@@ -294,7 +388,7 @@ Proof. intros. unfold keep. cbn. intuition. Qed.
 Lemma compile_gkeep : forall g n g', compile g n = Some g' -> gkeep g g'.
 Proof.
   intros g n g' H. destruct (compile_inv _ _ _ H) as (x & g1 & t & E & P & D & ->).
-  rewrite lock_parents_eq in P. destruct (pfold_spec _ _ _ _ _ P) as (K & _ & _).
+  destruct (lock_parents_spec _ _ _ _ P) as (K & _).
   eapply gkeep_trans; [apply lkonly_gkeep; exact K|].
   eapply gkeep_pointwise with (F := fun k y => if Nat.eqb k n then set_snap t y else y).
   - intros k. rewrite g_get_mod. destruct (Nat.eqb k n) eqn:Ek.
@@ -307,7 +401,7 @@ Lemma compile_other : forall g n g' k x, compile g n = Some g' -> k <> n -> g_ge
   exists y, g_get g' k = Some y /\ n_compiled y = n_compiled x /\ n_snap y = n_snap x.
 Proof.
   intros g n g' k x H Ne Ex. destruct (compile_inv _ _ _ H) as (x0 & g1 & t & E & P & D & ->).
-  rewrite lock_parents_eq in P. destruct (pfold_spec _ _ _ _ _ P) as (K & _ & _).
+  destruct (lock_parents_spec _ _ _ _ P) as (K & _).
   destruct (proj2 K _ _ Ex) as [y [Ey R]]. exists y. rewrite g_get_mod_other by auto. split; auto.
   destruct R as [->| ->]; auto.
 Qed.
@@ -316,25 +410,26 @@ Lemma compile_self : forall g n g', compile g n = Some g' ->
   exists y, g_get g' n = Some y /\ n_compiled y = true /\ Some (n_snap y) = defns (length g) g n.
 Proof.
   intros g n g' H. destruct (compile_inv _ _ _ H) as (x0 & g1 & t & E & P & D & ->).
-  rewrite lock_parents_eq in P. destruct (pfold_spec _ _ _ _ _ P) as (K & _ & _).
+  destruct (lock_parents_spec _ _ _ _ P) as (K & _).
   destruct (proj2 K _ _ E) as [y [Ey R]]. exists (set_snap t y). split; [apply g_get_mod_same; auto|]. cbn. auto.
 Qed.
 
-Lemma compile_locks : forall g n g' x m y, compile g n = Some g' -> g_get g n = Some x -> In m (n_mixins x) ->
-  g_get g m = Some y -> mem n (n_children y) = false -> exists y', g_get g' m = Some y' /\ n_locked y' = true.
+(* compile locks, for every non-linkback node v from which n derives through linkback derivations only (n itself
+   included), all the mixins of v *)
+Lemma compile_locks : forall g n g' v y q, ChildMix g -> compile g n = Some g' ->
+  Lb g v n -> g_get g v = Some y -> n_linkback y = false -> In q (n_mixins y) -> locked_at g' q.
 Proof.
-  intros g n g' x m y H E Im Em C. destruct (compile_inv _ _ _ H) as (x0 & g1 & t & E0 & P & D & ->).
-  rewrite E in E0. injection E0 as <-.
-  rewrite lock_parents_eq in P. destruct (pfold_spec _ _ _ _ _ P) as (K & _ & Q).
-  destruct (Q m y Im Em C) as (y1 & Ey1 & Ly1). rewrite g_get_mod. destruct (Nat.eqb m n) eqn:Emn.
-  - apply Nat.eqb_eq in Emn. subst m. rewrite Ey1. cbn. eexists. split; eauto.
+  intros g n g' v y q CM H Lv Ev Ly Iq. destruct (compile_inv _ _ _ H) as (x0 & g1 & t & E0 & P & D & ->).
+  destruct (lock_parents_locks _ _ _ _ CM P v y q Lv Ev Ly Iq) as (y1 & Ey1 & Ly1).
+  unfold locked_at. rewrite g_get_mod. destruct (Nat.eqb q n) eqn:Eqn.
+  - apply Nat.eqb_eq in Eqn. subst q. rewrite Ey1. cbn. eexists. split; eauto.
   - eauto.
 Qed.
 
 Lemma compile_LC : forall g n g' E, compile g n = Some g' -> LC E g -> LC E g'.
 Proof.
   intros g n g' E H HE. destruct (compile_inv _ _ _ H) as (x0 & g1 & t & E0 & P & D & ->).
-  rewrite lock_parents_eq in P. destruct (pfold_spec _ _ _ _ _ P) as (K & C & _).
+  destruct (lock_parents_spec _ _ _ _ P) as (K & C).
   pose proof (C _ HE) as H1. intros k xk q y Ek Lk NE Iq Eq.
   assert (exists xk1, g_get g1 k = Some xk1 /\ n_locked xk1 = n_locked xk /\ n_mixins xk1 = n_mixins xk) as (xk1 & Ek1 & A1 & A2).
   { rewrite g_get_mod in Ek. destruct (Nat.eqb k n) eqn:Ekn.
@@ -485,14 +580,12 @@ Proof.
 Qed.
 
 (* _update terminates when the children tree does and every defns does *)
-Lemma compile_some : forall g n, mterm (length g) g n = true -> exists g', compile g n = Some g'.
+Lemma compile_some : forall g n, (forall k, k < length g -> mterm (length g) g k = true) -> n < length g ->
+  exists g', compile g n = Some g'.
 Proof.
-  intros. unfold compile. destruct (mterm_defns _ _ _ H) as [t D].
-  pose proof (mterm_lt _ _ _ H) as L. destruct (g_get_some _ _ L) as [x E]. rewrite E, D.
-  destruct (pfold_some (length g) n (n_mixins x) g g (lkonly_refl g)) as [g1 P].
-  - intros m Im. destruct (length g) as [|f] eqn:Lg; [discriminate|]. rewrite mterm_S, E in H.
-    rewrite forallb_forall in H. eapply mterm_mono_gen; [apply agree_refl | | apply H; auto]. lia.
-  - rewrite lock_parents_eq, P. eauto.
+  intros g n M L. unfold compile. destruct (mterm_defns _ _ _ (M n L)) as [t D].
+  destruct (g_get_some _ _ L) as [x E]. rewrite E, D.
+  destruct (lock_parents_some (length g) g n M (M n L)) as [g1 P]. rewrite P. eauto.
 Qed.
 
 Lemma upd_some : forall f g n,
@@ -510,7 +603,7 @@ Proof.
       + rewrite <- (cterm_same g ga); [auto | apply gkeep_same_sk; auto].
       + rewrite U. apply IHcs; auto. eapply gkeep_trans; [exact K|]. apply (upd_spec _ _ _ _ U). }
   destruct (n_compiled n0).
-  - destruct (compile_some g n) as [g1 CP]; [apply M; eapply g_get_lt; eauto|]. rewrite CP.
+  - destruct (compile_some g n M) as [g1 CP]; [eapply g_get_lt; eauto|]. rewrite CP.
     apply FOLD; auto. eapply compile_gkeep; eauto.
   - apply FOLD; auto. apply gkeep_refl.
 Qed.
@@ -531,68 +624,53 @@ Proof.
   - eapply FOLD; eauto.
 Qed.
 
-(* ---------- _update locks, for every node it rebuilds, the non-linkback parents of that node ---------- *)
-(* children only list linkback derivations (part of the invariant of reachable graphs) *)
-Definition ChildLb (g : graph) : Prop :=
-  forall p x c y, g_get g p = Some x -> In c (n_children x) -> g_get g c = Some y -> n_linkback y = true.
-
-Lemma ChildLb_gkeep : forall g g', gkeep g g' -> ChildLb g -> ChildLb g'.
-Proof.
-  intros g g' K H p x' c y' Ep Ic Ec.
-  assert (forall k z', g_get g' k = Some z' -> exists z, g_get g k = Some z /\ keep z z') as Back.
-  { intros k z' Ez'. destruct K as [L K]. assert (k < length g) as Lk by (rewrite L; eapply g_get_lt; eauto).
-    destruct (g_get_some _ _ Lk) as [z Ez]. destruct (K _ _ Ez) as [z'' [Ez'' Kz]]. rewrite Ez' in Ez''. injection Ez'' as <-. eauto. }
-  destruct (Back _ _ Ep) as [x [Ex Kx]]. destruct (Back _ _ Ec) as [y [Ey Ky]].
-  destruct Kx as (_ & _ & Kc & _). destruct Ky as (_ & _ & _ & Kl & _). rewrite <- Kl. rewrite <- Kc in Ic. exact (H p x c y Ex Ic Ey).
-Qed.
-
+(* ---------- _update locks, for every node it rebuilds, what _lock_parents locks ---------- *)
 Definition UL (V : nat -> Prop) (g' : graph) : Prop :=
-  forall k y m z, V k -> g_get g' k = Some y -> n_compiled y = true -> n_linkback y = false ->
-                  In m (n_mixins y) -> g_get g' m = Some z -> n_locked z = true.
+  forall k yk v y m z, V k -> g_get g' k = Some yk -> n_compiled yk = true -> Lb g' v k -> g_get g' v = Some y ->
+                       n_linkback y = false -> In m (n_mixins y) -> g_get g' m = Some z -> n_locked z = true.
+
+Lemma gkeep_back0 : forall g g' k y, gkeep g g' -> g_get g' k = Some y -> exists x, g_get g k = Some x /\ keep x y.
+Proof.
+  intros g g' k y [L K] E. assert (k < length g) as Lk by (rewrite L; eapply g_get_lt; eauto).
+  destruct (g_get_some _ _ Lk) as [x Ex]. destruct (K _ _ Ex) as [y' [Ey' Ky]]. rewrite E in Ey'. injection Ey' as <-. eauto.
+Qed.
 
 Lemma UL_later : forall (V V2 : nat -> Prop) g2 g3, UL V g2 -> UR V2 g2 g3 -> UL V g3.
 Proof.
-  intros V V2 g2 g3 H (K & C & _) k y m z Vk Ey Cy Ly Im Ez.
-  assert (forall j w', g_get g3 j = Some w' -> exists w, g_get g2 j = Some w /\ keep w w') as Back.
-  { intros j w' Ew'. destruct K as [L K]. assert (j < length g2) as Lj by (rewrite L; eapply g_get_lt; eauto).
-    destruct (g_get_some _ _ Lj) as [w Ew]. destruct (K _ _ Ew) as [w'' [Ew'' Kw]]. rewrite Ew' in Ew''. injection Ew'' as <-. eauto. }
-  destruct (Back _ _ Ey) as [y2 [Ey2 Ky]]. destruct (Back _ _ Ez) as [z2 [Ez2 Kz]].
-  destruct Ky as (_ & Km & _ & Kl & _). destruct Kz as (_ & _ & _ & _ & Klk & _).
-  apply Klk. eapply (H k y2 m z2); eauto; try congruence.
-  pose proof (C k) as Ck. rewrite (compiled_b_get _ _ _ Ey), (compiled_b_get _ _ _ Ey2) in Ck. congruence.
+  intros V V2 g2 g3 H (K & C & _) k yk v y m z Vk Ek Ck Lv Ev Ly Im Ez.
+  destruct (gkeep_back0 _ _ _ _ K Ek) as [yk2 [Ek2 Kk]]. destruct (gkeep_back0 _ _ _ _ K Ev) as [y2 [Ev2 Kv]].
+  destruct (gkeep_back0 _ _ _ _ K Ez) as [z2 [Ez2 Kz]].
+  destruct Kv as (_ & Km & _ & Kl & _). destruct Kz as (_ & _ & _ & _ & Klk & _).
+  apply Klk. eapply (H k yk2 v y2 m z2); eauto; try congruence.
+  - pose proof (C k) as Ck'. rewrite (compiled_b_get _ _ _ Ek), (compiled_b_get _ _ _ Ek2) in Ck'. congruence.
+  - eapply Lb_sk; [apply same_sym; apply gkeep_same_sk; exact K | exact Lv].
 Qed.
 
-Lemma compile_UL : forall g n g', ChildLb g -> compile g n = Some g' -> UL (eq n) g'.
+Lemma compile_UL : forall g n g', ChildMix g -> compile g n = Some g' -> UL (eq n) g'.
 Proof.
-  intros g n g' H C k y m z <- Ey Cy Ly Im Ez.
+  intros g n g' CM C k yk v y m z <- Ek Ck Lv Ev Ly Im Ez.
   pose proof (compile_gkeep _ _ _ C) as K.
-  assert (forall j w', g_get g' j = Some w' -> exists w, g_get g j = Some w /\ keep w w') as Back.
-  { intros j w' Ew'. destruct K as [L K]. assert (j < length g) as Lj by (rewrite L; eapply g_get_lt; eauto).
-    destruct (g_get_some _ _ Lj) as [w Ew]. destruct (K _ _ Ew) as [w'' [Ew'' Kw]]. rewrite Ew' in Ew''. injection Ew'' as <-. eauto. }
-  destruct (Back _ _ Ey) as [x [Ex Kx]]. destruct (Back _ _ Ez) as [w [Ew Kw]].
-  destruct Kx as (_ & Km & _ & Kl & _). rewrite <- Km in Im. rewrite <- Kl in Ly.
-  destruct (compile_locks _ _ _ _ _ _ C Ex Im Ew) as (z' & Ez' & Lz'); [|congruence].
-  destruct (mem n (n_children w)) eqn:M; auto. unfold mem in M. apply existsb_exists in M.
-  destruct M as [n' [In' En']]. apply Nat.eqb_eq in En'. subst n'.
-  pose proof (H _ _ _ _ Ew In' Ex). congruence.
+  destruct (gkeep_back0 _ _ _ _ K Ev) as [y0 [Ev0 Kv]]. destruct Kv as (_ & Km & _ & Kl & _).
+  assert (Lb g v n) as Lv0 by (eapply Lb_sk; [apply same_sym; apply gkeep_same_sk; exact K | exact Lv]).
+  destruct (compile_locks g n g' v y0 m CM C Lv0 Ev0) as (z' & Ez' & Lz'); try congruence.
 Qed.
 
 Lemma UL_or : forall (V1 V2 : nat -> Prop) g, UL V1 g -> UL V2 g -> UL (fun k => V1 k \/ V2 k) g.
-Proof. intros V1 V2 g H1 H2 k y m z [Vk|Vk]; eauto. Qed.
+Proof. intros V1 V2 g H1 H2 k yk v y m z [Vk|Vk]; eauto. Qed.
 
 Lemma UL_ext : forall (V W : nat -> Prop) g, (forall k, W k -> V k) -> UL V g -> UL W g.
-Proof. intros V W g I H k y m z Wk. apply H. auto. Qed.
+Proof. intros V W g I H k yk v y m z Wk. apply H. auto. Qed.
 
-Lemma upd_UL : forall f g n g', ChildLb g -> upd f g n = Some g' -> UL (visited f g n) g'.
+Lemma upd_UL : forall f g n g', ChildMix g -> upd f g n = Some g' -> UL (visited f g n) g'.
 Proof.
   induction f; intros g n g' CL H; [discriminate|].
   rewrite upd_S in H. destruct (g_get g n) eqn:E; [|discriminate].
   assert (forall cs ga gb, gkeep g ga -> ufold f cs (Some ga) = Some gb ->
             UL (fun k => exists c, In c cs /\ visited f g c k) gb /\ UR (fun _ => True) ga gb) as FOLD.
   { induction cs as [|c cs IHcs]; intros ga gb K Hf.
-    - cbn in Hf. injection Hf as <-. split; [|apply UR_refl]. intros k y m z [c [[] _]].
+    - cbn in Hf. injection Hf as <-. split; [|apply UR_refl]. intros k yk v y m z [c [[] _]].
     - rewrite ufold_cons in Hf. destruct (upd f ga c) as [g1|] eqn:U; [|rewrite ufold_none in Hf; discriminate].
-      pose proof (IHf _ _ _ (ChildLb_gkeep _ _ K CL) U) as L1.
+      pose proof (IHf _ _ _ (ChildMix_gkeep _ _ K CL) U) as L1.
       destruct (upd_spec _ _ _ _ U) as [R1 _].
       assert (gkeep g g1) as K1 by (eapply gkeep_trans; [exact K | apply R1]).
       destruct (IHcs _ _ K1 Hf) as [L2 R2].
@@ -610,7 +688,7 @@ Proof.
     eapply UL_ext; [|apply UL_or; [eapply UL_later; [apply (compile_UL _ _ _ CL CP) | exact R2] | exact L2]].
     intros k Q. apply VS in Q. exact Q.
   - destruct (FOLD _ _ _ (gkeep_refl g) H) as [L2 R2].
-    intros k y m z Q Ey Cy. apply VS in Q. destruct Q as [<- |Q]; [|eapply L2; eauto].
+    intros k yk v y m z Q Ek Ck. apply VS in Q. destruct Q as [<- |Q]; [|eapply L2; eauto].
     exfalso. pose proof (proj1 (proj2 R2) n) as Cn.
-    rewrite (compiled_b_get _ _ _ Ey), (compiled_b_get _ _ _ E) in Cn. congruence.
+    rewrite (compiled_b_get _ _ _ Ek), (compiled_b_get _ _ _ E) in Cn. congruence.
 Qed.
